@@ -774,6 +774,8 @@ def run(chk):
         chk.notes.append("no raw draw hit `lower` on a range with |lower| >= 2 in this run")
     chk.extra_cov["histories"] = len(with_raws)
     chk.extra_cov["seeds"] = len(seeds)
+    from props import C20 as _c20
+    _c20.run_eq_leg(chk, lambda name: "Initializer" in name or "Random" in name or "DeviceWithSeed" in name or "InitializeParameter" in name)    # initializers, random functions and seeded devices through the C API
     chk.trusted += [
         "PARTIAL: that std::mt19937 and the libstdc++ objects uniform_real_distribution<double/float>(0,1) and normal_distribution<float>(0,1) "
         "produce U[0,1) and N(0,1) (and are deterministic functions of the seed) is trusted; only their use by primitiv is decided",
